@@ -363,6 +363,7 @@ pub fn property() -> Property {
     Property {
         id: "C12",
         subs: vec![sub::<Map>(), sub::<Meu>()],
+        fuzz: vec![],
         assumptions: vec![
             "weights k/8 and small integer utilities: every value is an exactly representable dyadic, compared with ==",
             "MEU domain as stated: decision variables carry unit weight, utilities are non-negative, every utility-bearing variable is ordered after all decision variables (built that way by the generator)",
